@@ -384,6 +384,31 @@ def run_item(item):
         return run_real(seed)
     d, opts, meta, mode, size = make_case(seed)
     data = d.text().encode('utf-8', 'surrogateescape')
+    r3 = engine.item_rng(engine.stable_hash((seed, 'c01-crlf')))
+    mll = meta['max_line_length']
+    if d.fmt == 'git' and r3.random() < 0.1 and 'invalid-utf8' not in meta['classes'] and \
+            (not mll or all(len(l.encode('utf-8', 'surrogateescape')) + 60 < mll for l in d.lines())):
+        # the same diff of a file with CRLF line endings, coloured as git colours it when delta is its pager: the CR of an
+        # added line sits between escape sequences (it is a white-space error for git), that of a removed line before the reset;
+        # it is not part of the text of the line
+        E = '\x1b'
+        out = []
+        for role, l in d.role_lines():
+            if role == 'hunk' and l[:1] == '+':
+                out.append(E + '[32m+' + E + '[m' + (E + '[32m' + l[1:] + E + '[m' if l[1:] else '') + E + '[41m\r' + E + '[m')
+            elif role == 'hunk' and l[:1] == '-':
+                out.append(E + '[31m' + l + '\r' + E + '[m')
+            elif role == 'hunk' and l[:1] == ' ':
+                out.append(l + '\r')
+            elif role == 'hunkheader':
+                k = l.find('@@', 2)
+                out.append(E + '[36m' + l[:k + 2] + E + '[m' + l[k + 2:])
+            elif role == 'header':
+                out.append(E + '[1m' + l + E + '[m')
+            else:
+                out.append(l)
+        data = ('\n'.join(out) + '\n').encode('utf-8', 'surrogateescape')
+        meta['classes'] = list(meta['classes']) + ['git-coloured-crlf']
     traced = seed % 8 == 0
     res = runner.run_delta(gen.to_args(opts), data, mode=mode, pty_size=size, trace=traced)
     c = crash_outcome(res, ID)
